@@ -58,7 +58,7 @@ SCOPE = {
     # (pool set 4 = a single pool is a sub-case of the others: left out of the exhaustive run, kept in the enumeration that is replayed;
     #  archetype 8 = two OR-terms relaxes into archetypes 3/4; measured: the full 59 400-scenario scope has ~3.0M states)
     "thorough": dict(mc='NPods = 3  PodArchs = {1,2,3,4,5,6,7,9,10}  Layouts = {1,2,3}  Caps = {0,1,2}  PoolSets = {1,2,3,5}  Modes = {"strict", "fallback"}',
-                     mc4='NPods = 4  PodArchs = {1,3,4,6,9}  Layouts = {1,3}  Caps = {1,2}  PoolSets = {1,2}  Modes = {"strict", "fallback"}',
+                     mc4='NPods = 4  PodArchs = {1,3,4,6,9}  Layouts = {1,3}  Caps = {1,2}  PoolSets = {2}  Modes = {"strict", "fallback"}',
                      gen="NPods = 3  PodArchs = {1,2,3,4,5,6,7,8,9,10}  " + ALL,
                      gen4='NPods = 4  PodArchs = {1,2,3,4,6,8,9}  Layouts = {1,2,3}  Caps = {0,1,2}  PoolSets = {1,2,3}  Modes = {"strict", "fallback"}',
                      replay=None, explore=15000,
@@ -110,7 +110,7 @@ def model_dra(run, tier, dev):
         return
     w, heap = (4 if dev else max(2, vlib.NCPU // 4)), ("4g" if dev else "8g")
     write_cfg(run, "DRA_MC_run.cfg", tier["dmc"], "Spec", DINVS, DFLAGS)
-    run.closed_model("DRA", "DRA_MC_run.cfg", workers=w, heap=heap, timeout=3000)
+    run.closed_model("DRA", "DRA_MC_run.cfg", workers=w, heap=heap, timeout=7000)
     write_cfg(run, "DRA_Cov_run.cfg", 'NCs = {"N1", "N2"}  NClaims = 2  Kinds = {"net", "shm2", "gpu"}  Pres = {0}  Slots = {1}', "Spec", DINVS, DFLAGS)
     r = run.tlc("DRA", "DRA_Cov_run.cfg", workers=2, coverage=True, timeout=1200)
     if not r.ok:
@@ -131,10 +131,10 @@ def model(run, tier, dev):
         return
     w, heap = (4 if dev else max(2, vlib.NCPU // 2)), ("4g" if dev else "8g")
     write_cfg(run, "Reservations_MC_run.cfg", tier["mc"], "Spec", INVS)
-    run.closed_model("Reservations", "Reservations_MC_run.cfg", workers=w, heap=heap, timeout=3000)
+    run.closed_model("Reservations", "Reservations_MC_run.cfg", workers=w, heap=heap, timeout=7000)
     if tier.get("mc4"):
         write_cfg(run, "Reservations_MC4_run.cfg", tier["mc4"], "Spec", INVS)
-        run.closed_model("Reservations", "Reservations_MC4_run.cfg", workers=w, heap=heap, timeout=3000)
+        run.closed_model("Reservations", "Reservations_MC4_run.cfg", workers=w, heap=heap, timeout=7000)
     write_cfg(run, "Reservations_Cov_run.cfg", 'NPods = 3  PodArchs = {1,4,6,7,8,10}  Layouts = {1}  Caps = {0}  PoolSets = {2}  Modes = {"strict", "fallback"}',
               "Spec", INVS)
     r = run.tlc("Reservations", "Reservations_Cov_run.cfg", workers=2, coverage=True, timeout=1200)
